@@ -260,6 +260,21 @@ def exec_paths(P, K: Class):
                     store_sites.append(
                         (f_, n, df.flat(df.prov(n.slice, env)),
                          type(n.ctx).__name__))
+                # self.context.update(zip(<names>, <values>)) / .update({<name>: ...}) /
+                # .setdefault(<name>, ...): bindings made without a subscript
+                if isinstance(n, ast.Call) and isinstance(n.func, ast.Attribute) \
+                        and dotted(n.func.value) == "self.context" and n.args:
+                    a0 = n.args[0]
+                    if n.func.attr == "update" and isinstance(a0, ast.Call) and dotted(a0.func) == "zip" \
+                            and a0.args:
+                        elems = {p_ + "[*]" for p_ in df.flat(df.prov(a0.args[0], env))}
+                        store_sites.append((f_, n, elems, "Store"))
+                    elif n.func.attr == "update" and isinstance(a0, ast.Dict):
+                        for k_ in a0.keys:
+                            if k_ is not None:
+                                store_sites.append((f_, n, df.flat(df.prov(k_, env)), "Store"))
+                    elif n.func.attr == "setdefault":
+                        store_sites.append((f_, n, df.flat(df.prov(a0, env)), "Store"))
 
         sc_found = []
 
